@@ -173,9 +173,9 @@ def main(rep, ws, tier):
     for tu, t in zip(tus, types):
         R = an[tu]; E, sz, lt = ELEM[t]
         def outs_v(S, base, n=3, first=0): return [S.out(base, (first + i) * sz, sz, lt) for i in range(n)]
-        def run(name, rule, fn):
+        def run(name, rule, fn, suffix=''):
             S = R.get(name)
-            oid = '%s<%s>' % (name[2:], E)
+            oid = '%s<%s>%s' % (name[2:], E, suffix)
             if S is None:
                 rep.ob(oid, rule, UNDECIDED, R.err.get(name, 'not analysed')); return
             where = fn_where(S.fn)
@@ -439,6 +439,30 @@ def main(rep, ws, tier):
                 if not g.zero(ctx.radd(g.dot(p, n), (P.pneg(d[0]), ONE))): return 'intersection is not on the plane', None
             return (None, 'on the line and on the plane; parallel lines are reported (false)') if n_ else ('no successful exit', None)
         run('w_plane_isect', 'R15.plane', plane_isect)
+
+        def plane_reject(S):
+            """a line is reported as missing the plane only when it is exactly parallel: the flag depends on one comparison,
+            normal . dir == 0 (a tolerance there rejects grazing lines that do cross the plane at a representable point), and
+            intersect / intersectT reject the same lines"""
+            fl = S.out('a0', 0, 1, 'i8')
+            cs = list(P.all_conds(fl))
+            if len(cs) != 1: return 'the returned flag depends on %d comparisons (%s); expected the single test normal . dir == 0' % (len(cs), '; '.join(T.show(c, 3)[:60] for c in cs[:3])), None
+            c = cs[0]
+            if not (c.op == 'fcmp' and c.attr in ('oeq', 'une', 'one', 'ueq') and any(z.op == 'const' and T.const_value(z) == 0 for z in c.args)):
+                return 'a line is rejected on %s, not on normal . dir == 0: lines that cross the plane at a shallow angle are reported as missing it' % T.show(c, 3)[:120], None
+            x = [z for z in c.args if z.op != 'const'][0]
+            ctx = P.Ctx(); g = G(ctx, t)
+            n, d = pl(g, 'a1'); dr = g.vec('a2', 3)
+            if not ctx.requal(ctx.rat(x), g.dot(n, dr)): return 'the quantity tested against zero is %s, not normal . dir' % P.show_rat(ctx.rat(x), ctx)[:120], None
+            # polarity: zero -> false
+            v0 = T.resolve(fl, {c: c.attr in ('oeq', 'ueq')})
+            if not (v0.op == 'const' and v0.attr[1] & 1 == 0): return 'an exactly parallel line is not reported', None
+            for onm in ('w_plane_isect', 'w_plane_isectT'):
+                other = R.get(onm)
+                if other is not None and other.out('a0', 0, 1, 'i8') is not fl: return 'intersect and intersectT reject different sets of lines', None
+            return None, 'rejected exactly when normal . dir == 0; intersect and intersectT agree'
+        run('w_plane_isect', 'R15.plane', plane_reject, suffix='#parallel')
+        run('w_plane_isectT', 'R15.plane', plane_reject, suffix='#parallel')
 
         def plane_isectT(S):
             outs = [S.out('a0', 0, 1, 'i8'), S.out('a3', 0, sz, lt)]
